@@ -41,6 +41,14 @@ def build(cfg, values=None):
         for k in range(P):
             xs[k] = ctx.V('x%d' % k)
             ys[k] = ctx.V('y%d' % k)
+        if cfg.get('layout') == 'transposed-2d':
+            # 2-D point arrays that are NOT C-contiguous (transposed views, as X.T, Y.T of a meshgrid)
+            xs = xs.reshape(P // 2, 2).T
+            ys = ys.reshape(P // 2, 2).T
+        shape = xs.shape
+        keys = list(np.ndindex(*shape))
+        K = lambda k: k[0] if len(k) == 1 else k
+        nmk = lambda k: ','.join(str(q) for q in k)
         c0, xs0, ys0 = c.copy(), xs.copy(), ys.copy()
         S = series_of(p, model)
         ops = E.donnell_ops('cpanel' if model == 'cpanel' else 'plate', r=p.r)
@@ -48,23 +56,24 @@ def build(cfg, values=None):
             ops = {k: {cc: t for cc, t in v.items() if cc == 'w'} for k, v in ops.items()}
 
         def pt(k):
-            return 2 * xs0[k] / p.a - 1, 2 * ys0[k] / p.b - 1
+            return 2 * xs0[K(k)] / p.a - 1, 2 * ys0[K(k)] / p.b - 1
         if variant == 'uvw':
             u, v, w, phix, phiy = p.uvw(c, xs=xs, ys=ys)
             for nm, arr in (('u', u), ('v', v), ('w', w), ('phix', phix), ('phiy', phiy)):
-                if arr.shape != (P,):
-                    obs.append(('%s-shape' % nm, Sym.lift(arr.size), Sym.lift(P)))
-            for k in range(P):
-                xi, eta = pt(k)
+                if arr.shape != shape:
+                    obs.append(('%s-shape' % nm, Sym.lift(arr.size), Sym.lift(-1)))
+            for kk in (keys if all(arr.shape == shape for arr in (u, v, w, phix, phiy)) else []):
+                xi, eta = pt(kk)
+                k, kn = K(kk), nmk(kk)
                 if model != 'plate_w':
-                    obs.append(('u[%d]' % k, u[k], PW.field(ctx.atoms, S, c0, 'u', 0, 0, xi, eta)))
-                    obs.append(('v[%d]' % k, v[k], PW.field(ctx.atoms, S, c0, 'v', 0, 0, xi, eta)))
+                    obs.append(('u[%s]' % kn, u[k], PW.field(ctx.atoms, S, c0, 'u', 0, 0, xi, eta)))
+                    obs.append(('v[%s]' % kn, v[k], PW.field(ctx.atoms, S, c0, 'v', 0, 0, xi, eta)))
                 else:
-                    obs.append(('u[%d]' % k, u[k], 0))
-                    obs.append(('v[%d]' % k, v[k], 0))
-                obs.append(('w[%d]' % k, w[k], PW.field(ctx.atoms, S, c0, 'w', 0, 0, xi, eta)))
-                obs.append(('phix[%d]' % k, phix[k], -PW.field(ctx.atoms, S, c0, 'w', 1, 0, xi, eta)))
-                obs.append(('phiy[%d]' % k, phiy[k], -PW.field(ctx.atoms, S, c0, 'w', 0, 1, xi, eta)))
+                    obs.append(('u[%s]' % kn, u[k], 0))
+                    obs.append(('v[%s]' % kn, v[k], 0))
+                obs.append(('w[%s]' % kn, w[k], PW.field(ctx.atoms, S, c0, 'w', 0, 0, xi, eta)))
+                obs.append(('phix[%s]' % kn, phix[k], -PW.field(ctx.atoms, S, c0, 'w', 1, 0, xi, eta)))
+                obs.append(('phiy[%s]' % kn, phiy[k], -PW.field(ctx.atoms, S, c0, 'w', 0, 1, xi, eta)))
         elif variant in ('strain', 'stress'):
             NL = cfg['NL']
             tag = 'NL' if NL else 'lin'
@@ -74,8 +83,9 @@ def build(cfg, values=None):
                 res = p.stress(c, xs=xs, ys=ys, NLterms=bool(NL))
             F = p._verif_lam.ABD
             Fl = [[F[i, j] for j in range(6)] for i in range(6)]
-            for k in range(P):
-                xi, eta = pt(k)
+            for kk in keys:
+                xi, eta = pt(kk)
+                k, kn = K(kk), nmk(kk)
                 eps = PW.strains(ctx.atoms, S, ops, c0, xi, eta, NL=NL)
                 known = None
                 if NL:
@@ -94,27 +104,27 @@ def build(cfg, values=None):
                 if variant == 'strain':
                     for nm, val in zip(E.STRAINS, eps):
                         fam = '%s-%s' % (nm, tag) if nm in ('exx', 'eyy', 'gxy') else nm
-                        obs.append(('%s[%d]' % (fam, k), res[nm][k], val))
+                        obs.append(('%s[%s]' % (fam, kn), res[nm][k], val))
                         if known is not None and nm in ('exx', 'eyy', 'gxy'):
-                            obs.append(('%s~known[%d]' % (fam, k), res[nm][k], known[E.STRAINS.index(nm)]))
+                            obs.append(('%s~known[%s]' % (fam, kn), res[nm][k], known[E.STRAINS.index(nm)]))
                 else:
                     sig = PW.resultants(Fl, eps)
                     ksig = PW.resultants(Fl, known) if known is not None else None
                     for q, (nm, val) in enumerate(zip(('Nxx', 'Nyy', 'Nxy', 'Mxx', 'Myy', 'Mxy'), sig)):
-                        obs.append(('%s-%s[%d]' % (nm, tag, k), res[nm][k], val))
+                        obs.append(('%s-%s[%s]' % (nm, tag, kn), res[nm][k], val))
                         if ksig is not None:
-                            obs.append(('%s-%s~known[%d]' % (nm, tag, k), res[nm][k], ksig[q]))
-                obs.append(('x-echo[%d]' % k, res['x'][k], xs0[k]))
-                obs.append(('y-echo[%d]' % k, res['y'][k], ys0[k]))
+                            obs.append(('%s-%s~known[%s]' % (nm, tag, kn), res[nm][k], ksig[q]))
+                obs.append(('x-echo[%s]' % kn, res['x'][k], xs0[k]))
+                obs.append(('y-echo[%s]' % kn, res['y'][k], ys0[k]))
         else:
             raise ValueError(variant)
         # caller arrays untouched
         for k in range(size):
             if c[k] is not c0[k]:
                 obs.append(('caller-c-unchanged[%d]' % k, Sym.lift(1), Sym.lift(0)))
-        for k in range(P):
-            if xs[k] is not xs0[k] or ys[k] is not ys0[k]:
-                obs.append(('caller-points-unchanged[%d]' % k, Sym.lift(1), Sym.lift(0)))
+        for kk in keys:
+            if xs[K(kk)] is not xs0[K(kk)] or ys[K(kk)] is not ys0[K(kk)]:
+                obs.append(('caller-points-unchanged[%s]' % nmk(kk), Sym.lift(1), Sym.lift(0)))
     assumptions = positivity(ctx, p, model) if values is None else []
     info = {'atoms': len(ctx.atoms.table), 'stats': {k: v.stats.as_dict() for k, v in ctx.kernels.mods.items()},
             'values': {k: str(v) for k, v in ctx.used_values.items()}}
@@ -133,6 +143,7 @@ def configs(tier, seed):
                     continue
                 out.append({'model': model, 'm': 2, 'n': 1, 'variant': 'uvw', 'P': P, 'cores': cores, 'group': 'uvw-chunking:%s' % model})
         out.append({'model': model, 'm': 3, 'n': 2, 'variant': 'uvw', 'P': 2, 'cores': None, 'group': 'uvw-default-cores:%s' % model})
+        out.append({'model': model, 'm': 2, 'n': 2, 'variant': 'uvw', 'P': 6, 'cores': 2, 'layout': 'transposed-2d', 'group': 'uvw-noncontiguous-2d-points:%s' % model})
         out.append({'model': model, 'm': 4, 'n': 1, 'variant': 'uvw', 'P': 1, 'cores': 1, 'group': 'uvw-order-4-5:%s' % model})
         out.append({'model': model, 'm': 1, 'n': 5, 'variant': 'uvw', 'P': 1, 'cores': 2, 'group': 'uvw-order-4-5:%s' % model})
     for model in ('plate', 'cpanel'):
@@ -140,6 +151,7 @@ def configs(tier, seed):
             out.append({'model': model, 'm': 2, 'n': 2, 'variant': 'strain', 'NL': NL, 'P': 2, 'cores': 2, 'group': 'strain:%s' % model})
             out.append({'model': model, 'm': 2, 'n': 2, 'variant': 'stress', 'NL': NL, 'P': 2, 'cores': 1, 'group': 'stress:%s' % model})
             out.append({'model': model, 'm': 1, 'n': 1, 'variant': 'strain', 'NL': NL, 'P': 1, 'cores': 1, 'group': 'strain-single-term:%s' % model})
+        out.append({'model': model, 'm': 2, 'n': 1, 'variant': 'strain', 'NL': 0, 'P': 4, 'cores': 1, 'layout': 'transposed-2d', 'group': 'strain-noncontiguous-2d-points:%s' % model})
         out.append({'model': model, 'm': 4, 'n': 1, 'variant': 'strain', 'NL': 0, 'P': 1, 'cores': 1, 'group': 'strain-order-4-5:%s' % model})
         out.append({'model': model, 'm': 1, 'n': 5, 'variant': 'stress', 'NL': 0, 'P': 1, 'cores': 1, 'group': 'strain-order-4-5:%s' % model})
         for cores in range(1, maxc + 1):
